@@ -247,7 +247,7 @@ class StreamHarness(Harness):
 
     def __init__(self, name, factory, model_factory, M=4, maxpkt=3, nparam=2, mode="ids", idbits=None,
                  ctrl=None, idle_garbage=True, cap=None, sink="sink", source="source", check_stability=True,
-                 alphabet=None, coop_ctrl=None, expect_full=True, minpkt=1, mid_pause=True):
+                 alphabet=None, coop_ctrl=None, expect_full=True, minpkt=1, mid_pause=True, idle_values=None):
         self.name = name
         self.factory = factory
         self.model_factory = model_factory
@@ -260,6 +260,7 @@ class StreamHarness(Harness):
         self.coop_ctrl = coop_ctrl           # ctrl tuple values considered cooperative (None: all)
         self.idbits = idbits
         self.minpkt, self.mid_pause = minpkt, mid_pause
+        self.idle_values = idle_values          # extra raw payload patterns driven while idle (choice index >= 2)
         if cap:
             self.cap = cap
         self.hs = set()
@@ -306,6 +307,8 @@ class StreamHarness(Harness):
                 pch.append(("idle", 0))
                 if self.idle_garbage:
                     pch.append(("idle", 1))
+                    for k in range(len(self.idle_values or ())):
+                        pch.append(("idle", 2 + k))
             if not self.use_last:
                 lasts = (0,)
             elif pos + 1 < self.minpkt:
@@ -330,7 +333,11 @@ class StreamHarness(Harness):
         pc, rdy, cc = ch
         nid, pos, par, hold, stall, cprev, mon = env
         if pc[0] == "idle":
-            self.sink.drive_idle(v, pc[1])
+            if pc[1] >= 2:
+                self.sink.drive_token(v, self.idle_values[pc[1] - 2], 1, 1, 0)
+                v[self.sink.valid] = 0
+            else:
+                self.sink.drive_idle(v, pc[1])
         else:
             _, i, last, p = pc
             first = 1 if (pos == 0 and self.use_last) else 0
